@@ -375,6 +375,9 @@ class Interp:
             return d
         raise NeedDecision(desc)
 
+    def possible_term(self, t):
+        return self.facts.possible(t)
+
     def decide_pred(self, p):
         """truth of a (possibly undecided) predicate"""
         if isinstance(p, bool):
@@ -397,6 +400,13 @@ class Interp:
                         return False
             d = self.decide("%r %s 0" % (p.e, p.op))
             self.facts.refine(p.e, ts if d else (ALLSIGNS - ts))
+            est = ts if d else (ALLSIGNS - ts)
+            if est <= {"0", "-"} and len(p.e.n) > 1:
+                # a sum of quantities none of which can be negative is not positive: every one of them is zero
+                terms = [Expr({m: c}) for m, c in p.e.expand().n.items()]
+                if all(self.possible_term(t) <= {"0", "+"} for t in terms):
+                    for t in terms:
+                        self.facts.refine(t, {"0"})
             cm = p.e.as_mono()
             qa = cm[1][0][0] if cm is not None and cm[0] == alg.C1 and len(cm[1]) == 1 and cm[1][0][1] == 1 else None
             if qa is not None and qa.kind == "fn" and (qa.name.startswith("any:") or qa.name.startswith("all:")) and p.op == "!=" and qa.name.endswith("0"):
